@@ -5,7 +5,7 @@ From C05 Require Import Model.
 Import ListNotations.
 Local Open Scope string_scope.
 
-Definition show_err (e : err) : string := match e with EUser n => "E" ++ show_nat n | ECancelled => "X" end.
+Definition show_err (e : err) : string := match e with EUser n => "E" ++ show_nat n | ECancelled => "X" | EBase n => "B" ++ show_nat n end.
 Definition show_val (v : val) : string := match v with VInt z => show_Z z | VNone => "None" end.
 Definition show_outcome (o : outcome) : string := match o with Val v => show_val v | Exc e => show_err e end.
 Definition show_obs (t : obs) : string :=
